@@ -77,6 +77,7 @@ ATTRS = ['Object Type', 'State', 'Cryptographic Usage Mask']
 PSEUDO = ('Version', 'Restart', 'Batch', 'Clock')
 VERSIONS = [(1, 2), (1, 3), (1, 4), (2, 0)]       # the versions under which every operation of the alphabet exists
 ALLBITS = sum(e.value for e in M)
+OPTIONAL_FLAVOURS = {'Encrypt': ['aead', 'noiv'], 'Decrypt': ['aead', 'noiv'], 'Sign': [], 'SignatureVerify': ['digested', 'allopt']}
 ALGS = [a.name for a in ALG]                 # every member: a stored key may carry any of them as its own algorithm
 CREATABLE = {'AES': (ALG.AES, 128), 'AES256': (ALG.AES, 256), 'TRIPLE_DES': (ALG.TRIPLE_DES, 192), 'BLOWFISH': (ALG.BLOWFISH, 128),
              'CAMELLIA': (ALG.CAMELLIA, 256), 'CAST5': (ALG.CAST5, 128)}
@@ -126,6 +127,8 @@ def refs(op):
         return refs(op[1])
     if k in ('Create', 'CreateKeyPair', 'Register'):
         return []
+    if k == 'RegisterWrapped':
+        return [op[1]]
     if k == 'DeriveKey':
         return list(op[1])
     if k == 'GetWrap':
@@ -146,6 +149,7 @@ class Runner:
         self.in_batch = False
         self.item_index = -1
         self.crypto_by_item = {}
+        self.sent_wrapped = None
 
     def fresh(self):
         if self.eng is not None:
@@ -224,6 +228,31 @@ class Runner:
             t = op[1]
             return kdrv.register(TYPES[t], secret=secret_for(t, self.mat, op[3] if len(op) > 3 else None),
                                  mask=(mask_list(op[2]) if t != 'OpaqueData' else None))
+        if kind == 'RegisterWrapped':
+            # a symmetric key in WRAPPED form whose Key Wrapping Data names object op[1] of this server as the wrapping
+            # key (NIST key wrap, really wrapped under that key's value when it is an AES-sized key we can Get)
+            kek = None
+            if isinstance(op[1], int) and op[1] >= 0:
+                g = self.eng.request([kdrv.get(u(op[1]))], version=self.version)
+                it = g['items'][0] if g['items'] else None
+                if it is not None and kdrv.ok(it):
+                    kb = getattr(it['raw'].response_payload.secret, 'key_block', None)
+                    km = getattr(getattr(kb, 'key_value', None), 'key_material', None)
+                    if km is not None and getattr(kb, 'key_wrapping_data', None) is None and len(bytes(km.value)) in (16, 24, 32):
+                        kek = bytes(km.value)
+            if kek is not None:
+                from cryptography.hazmat.primitives import keywrap
+                from cryptography.hazmat.backends import default_backend
+                blob = keywrap.aes_key_wrap(kek, b'\x42' * 16, default_backend())
+            else:
+                blob = b'\x5a' * 24
+            self.sent_wrapped = blob
+            kwd = dict(wrapping_method=enums.WrappingMethod.ENCRYPT,
+                       encryption_key_information=cobjects.EncryptionKeyInformation(
+                           unique_identifier=u(op[1]),
+                           cryptographic_parameters=kdrv.crypto_params(block_cipher_mode=enums.BlockCipherMode.NIST_KEY_WRAP)),
+                       encoding_option=enums.EncodingOption.NO_ENCODING)
+            return kdrv.register(OT.SYMMETRIC_KEY, secret=kdrv.symmetric_key_secret(blob, ALG.AES, 128, wrapping=kwd), mask=mask_list(op[2]))
         if kind == 'Activate':
             return kdrv.activate(u(op[1]))
         if kind == 'Revoke':
@@ -232,22 +261,40 @@ class Runner:
         if kind == 'Destroy':
             return kdrv.destroy(u(op[1]))
         flavour = op[3] if len(op) > 3 and kind in ('Encrypt', 'Decrypt', 'Sign', 'SignatureVerify') else 'good'
+        # flavours: 'good' / 'bad' (parameters the crypto engine refuses) and the ones that fill the OPTIONAL request
+        # fields: 'aead' (GCM: IV, additional authenticated data, tag), 'noiv' (no IV/counter/nonce), 'digested'
+        # (Digested Data in place of Data), 'allopt' (Data and Digested Data, correlation value, init / final indicator)
         if kind == 'Encrypt':
+            if flavour == 'aead':
+                p = kdrv.crypto_params(cryptographic_algorithm=ALG.AES, block_cipher_mode=enums.BlockCipherMode.GCM, tag_length=16)
+                return kdrv.encrypt(u(op[1]), p if op[2] else None, b'attack at dawn!!', iv=b'\x02' * 12, aad=b'header')
             p = kdrv.crypto_params(cryptographic_algorithm=ALG.AES, block_cipher_mode=enums.BlockCipherMode.CBC,
-                                   padding_method=(enums.PaddingMethod.PKCS5 if flavour == 'good' else None)) if op[2] else None
-            return kdrv.encrypt(u(op[1]), p, b'attack at dawn!!', iv=b'\x01' * 16)
+                                   padding_method=(None if flavour == 'bad' else enums.PaddingMethod.PKCS5)) if op[2] else None
+            return kdrv.encrypt(u(op[1]), p, b'attack at dawn!!', iv=(None if flavour == 'noiv' else b'\x01' * 16))
         if kind == 'Decrypt':
-            if flavour == 'good':     # CTR: any data decrypts
+            if flavour == 'aead':
+                p = kdrv.crypto_params(cryptographic_algorithm=ALG.AES, block_cipher_mode=enums.BlockCipherMode.GCM)
+                return kdrv.decrypt(u(op[1]), p if op[2] else None, b'\x07' * 16, iv=b'\x02' * 12, aad=b'header', tag=b'\x09' * 16)
+            if flavour in ('good', 'noiv'):     # CTR: any data decrypts
                 p = kdrv.crypto_params(cryptographic_algorithm=ALG.AES, block_cipher_mode=enums.BlockCipherMode.CTR)
             else:                     # CBC + padding on garbage: the unpadding fails inside the crypto engine
                 p = kdrv.crypto_params(cryptographic_algorithm=ALG.AES, block_cipher_mode=enums.BlockCipherMode.CBC,
                                        padding_method=enums.PaddingMethod.PKCS5)
-            return kdrv.decrypt(u(op[1]), p if op[2] else None, b'\x07' * 16, iv=b'\x01' * 16)
+            return kdrv.decrypt(u(op[1]), p if op[2] else None, b'\x07' * 16, iv=(None if flavour == 'noiv' else b'\x01' * 16))
         if kind in ('Sign', 'SignatureVerify'):
             p = kdrv.crypto_params(cryptographic_algorithm=ALG.RSA, hashing_algorithm=enums.HashingAlgorithm.SHA_256,
-                                   padding_method=(enums.PaddingMethod.PKCS1v15 if flavour == 'good' else None)) if op[2] else None
+                                   padding_method=(None if flavour == 'bad' else enums.PaddingMethod.PKCS1v15)) if op[2] else None
             if kind == 'Sign':
                 return kdrv.sign(u(op[1]), p, b'message')
+            import hashlib
+            digest = hashlib.sha256(b'message').digest()
+            if flavour == 'digested':
+                return (OP.SIGNATURE_VERIFY, payloads.SignatureVerifyRequestPayload(
+                    unique_identifier=u(op[1]), cryptographic_parameters=p, data=None, digested_data=digest, signature_data=b'\x05' * 128))
+            if flavour == 'allopt':
+                return (OP.SIGNATURE_VERIFY, payloads.SignatureVerifyRequestPayload(
+                    unique_identifier=u(op[1]), cryptographic_parameters=p, data=b'message', digested_data=digest,
+                    signature_data=b'\x05' * 128, correlation_value=b'\x01\x02', init_indicator=True, final_indicator=True))
             return kdrv.signature_verify(u(op[1]), p, b'message', b'\x05' * 128)
         if kind == 'MAC':
             p = kdrv.crypto_params(cryptographic_algorithm=ALG.HMAC_SHA256) if op[2] else None
@@ -380,7 +427,7 @@ class Runner:
         p = item['payload'] or {}
         if op[0] == 'CreateKeyPair':
             return [int(p['public_key_unique_identifier']), int(p['private_key_unique_identifier'])]
-        if op[0] in ('Create', 'Register', 'DeriveKey'):
+        if op[0] in ('Create', 'Register', 'RegisterWrapped', 'DeriveKey'):
             return [int(p['unique_identifier'])]
         return []
 
@@ -399,13 +446,22 @@ class Runner:
         self.steps.append({'op': op, 'cok': not (crypto and crypto['raised']), 'out': self.classify(item, crypto),
                            'called': crypto is not None, 'status': item['status'], 'reason': item['reason'],
                            'message': item['message'], 'before': self.before, 'after': after, 'crypto': crypto})
+        if op[0] == 'RegisterWrapped' and new:
+            # what did the server store?  (Get of the new object: still wrapped, with the bytes that were sent?)
+            g = self.eng.request([kdrv.get(str(new[0]))], version=self.version)
+            it = g['items'][0] if g['items'] else None
+            if it is None or not kdrv.ok(it):
+                raise RuntimeError('Get of the key just registered failed: %r' % (it and (it['reason'], it['message']),))
+            kb = it['raw'].response_payload.secret.key_block
+            self.steps[-1]['stored'] = {'wrapped': kb.key_wrapping_data is not None,
+                                        'same_bytes': bytes(kb.key_value.key_material.value) == self.sent_wrapped}
         self.before = after
 
     def run_batch(self, base, group):
         """One request: op1, GetAttributes of the whole window, op2, GetAttributes..., with Continue."""
         # identifiers are predictable (autoincrement); the prediction is checked against the responses below
         predicted_last = self.last
-        window_end = self.last + sum(2 if g[0] == 'CreateKeyPair' else 1 for g in group if g[0] in ('Create', 'CreateKeyPair', 'Register', 'DeriveKey'))
+        window_end = self.last + sum(2 if g[0] == 'CreateKeyPair' else 1 for g in group if g[0] in ('Create', 'CreateKeyPair', 'Register', 'RegisterWrapped', 'DeriveKey'))
         window = list(range(base, window_end + 1))
         items, layout, resolved = [], [], []
         placeholder = None
@@ -418,7 +474,7 @@ class Runner:
             resolved.append(g2)
             items.append(self.build(g, via_placeholder=(g is not g2)))
             layout.append(('op', len(resolved) - 1))
-            if g[0] in ('Create', 'Register'):
+            if g[0] in ('Create', 'Register', 'RegisterWrapped'):
                 predicted_last += 1
                 placeholder = predicted_last
             elif g[0] == 'CreateKeyPair':
@@ -518,6 +574,22 @@ def oracle_step(base, st):
             if b[0] not in RIGHT_KIND[kind]:
                 out.append(({'clause': 'gate', 'op': kind, 'why': 'wrong-kind', 'stored_type': b[0]},
                             '%s succeeded with a %s of type %s' % (kind, role, b[0])))
+    if okay and kind == 'RegisterWrapped' and st.get('stored') and not (st['stored']['wrapped'] and st['stored']['same_bytes']):
+        # the server unwrapped what was registered: it USED the named key as a wrapping key
+        key = ref(op[1])
+        b = before.get(key) if key is not None else None
+        if b is None:
+            out.append(({'clause': 'gate', 'op': kind, 'why': 'no-such-key'}, 'a registered wrapped key was unwrapped with a wrapping key that does not exist'))
+        else:
+            if b[1] != 'ACTIVE':
+                out.append(({'clause': 'gate', 'op': kind, 'why': 'not-active', 'state': b[1], 'stored_type': b[0]},
+                            'Register unwrapped the key with wrapping key %d while that key was %s' % (key, b[1])))
+            if not (b[2] & M.UNWRAP_KEY.value):
+                out.append(({'clause': 'gate', 'op': kind, 'why': 'mask-bit-missing', 'stored_type': b[0]},
+                            'Register unwrapped the key although the usage mask %#x of wrapping key %d lacks UNWRAP_KEY' % (b[2], key)))
+            if b[0] != 'SYMMETRIC_KEY':
+                out.append(({'clause': 'gate', 'op': kind, 'why': 'wrong-kind', 'stored_type': b[0]},
+                            'Register unwrapped the key with a wrapping key of type %s' % b[0]))
     if okay and kind == 'DeriveKey':
         if not op[1]:
             out.append(({'clause': 'gate', 'op': kind, 'why': 'no-base-object'}, 'DeriveKey succeeded without a base object'))
@@ -553,6 +625,8 @@ def coq_op(op, base):
         return '(CreateKeyPair %s %s)' % (cp.z(op[1]), cp.z(op[2]))
     if k == 'Register':
         return '(Register %s %s)' % (op[1], cp.z(op[2]))
+    if k == 'RegisterWrapped':      # the code as it is never consults the named wrapping key: a plain Register for the model
+        return '(Register SymmetricKey %s)' % cp.z(op[2])
     if k in ('Activate', 'Destroy'):
         return '(%s %s)' % (k, u(op[1]))
     if k == 'Revoke':
@@ -658,6 +732,8 @@ def grid():
                         setup = [('Register', t, m), ('Create', FULL), ('Activate', 1)] + route
                         if opname in ('Encrypt', 'Decrypt', 'Sign', 'SignatureVerify'):
                             tests = [(opname, 0, T), (opname, 0, False)] if mclass == 'full' else [(opname, 0, T)]
+                            if ri == 0 and mclass in ('full', 'lacking'):      # every optional request field filled
+                                tests += [(opname, 0, T, fl) for fl in OPTIONAL_FLAVOURS[opname]]
                         elif opname == 'MAC':
                             tests = [('MAC', 0, T, T), ('MAC', 0, False, T), ('MAC', 0, T, False)] if mclass == 'full' else [('MAC', 0, T, T)]
                         elif opname == 'DeriveKey':
@@ -700,6 +776,24 @@ def algorithm_family(tier):
     for c in CREATABLE:
         out.append(('algorithms', [('Create', ALLBITS & ~BIT['MAC_GENERATE'] & ~BIT['ENCRYPT'], c), ('Activate', 0),
                                    ('MAC', 0, False, T), ('Encrypt', 0, T), ('Decrypt', 0, T)]))
+    return out
+
+
+def wrapped_family():
+    """Register of a key in wrapped form whose Key Wrapping Data names a server-held key in every state / kind / mask
+    class; the stored object is read back with Get (it must be what was sent: the code never unwraps on Register)."""
+    out = []
+    UW = M.UNWRAP_KEY.value
+    for state in ('PRE_ACTIVE', 'ACTIVE', 'DEACTIVATED', 'COMPROMISED'):
+        for route in reach(state):
+            for m in (ALLBITS, UW, UW | BIT['WRAP_KEY'], ALLBITS & ~UW, FULL, 0):
+                for first in (('Create', m), ('Register', 'SymmetricKey', m)):
+                    out.append(('wrapped', [first] + route + [('RegisterWrapped', 0, FULL), ('Activate', 1), ('Encrypt', 1, T), ('Destroy', 0)]))
+    for t in TYPES:                  # wrong kinds of wrapping key, active and with every bit
+        if t != 'SymmetricKey':
+            out.append(('wrapped', [('Register', t, ALLBITS), ('Activate', 0), ('RegisterWrapped', 0, FULL), ('Activate', 1)]))
+    out.append(('wrapped', [('RegisterWrapped', -1, FULL), ('RegisterWrapped', 0, FULL), ('RegisterWrapped', 5, FULL), ('Activate', 0), ('Activate', 1)]))
+    out.append(('wrapped', [('Create', ALLBITS), ('Activate', 0), ('Batch', 3), ('RegisterWrapped', 0, ALLBITS), ('Activate', 'P'), ('Encrypt', 'P', T)]))
     return out
 
 
@@ -786,6 +880,10 @@ def random_history(rng, length):
                 objs += ['PublicKey', 'PrivateKey']
             else:
                 t = rng.choice(list(TYPES))
+                if objs and rng.random() < 0.2:        # a wrapped key naming one of the history's objects as its wrapping key
+                    ops.append(('RegisterWrapped', pick_type(['SymmetricKey']), rmask()))
+                    objs.append('SymmetricKey')
+                    continue
                 if t in ('SymmetricKey', 'PublicKey', 'PrivateKey', 'SplitKey') and rng.random() < 0.5:
                     ops.append(('Register', t, rmask(), rng.choice(ALGS)))      # any own algorithm
                 else:
@@ -811,13 +909,13 @@ def random_history(rng, length):
         elif r < 0.50:
             ops.append(('Destroy', pick()))
         elif r < 0.58:
-            ops.append(('Encrypt', pick_type(['SymmetricKey']), rng.random() < 0.9, rng.choice(['good', 'good', 'bad'])))
+            ops.append(('Encrypt', pick_type(['SymmetricKey']), rng.random() < 0.9, rng.choice(['good', 'good', 'bad', 'aead', 'noiv'])))
         elif r < 0.65:
-            ops.append(('Decrypt', pick_type(['SymmetricKey']), rng.random() < 0.9, rng.choice(['good', 'good', 'bad'])))
+            ops.append(('Decrypt', pick_type(['SymmetricKey']), rng.random() < 0.9, rng.choice(['good', 'good', 'bad', 'aead', 'noiv'])))
         elif r < 0.72:
             ops.append(('Sign', pick_type(['PrivateKey']), rng.random() < 0.9, rng.choice(['good', 'good', 'bad'])))
         elif r < 0.79:
-            ops.append(('SignatureVerify', pick_type(['PublicKey']), rng.random() < 0.9, rng.choice(['good', 'good', 'bad'])))
+            ops.append(('SignatureVerify', pick_type(['PublicKey']), rng.random() < 0.9, rng.choice(['good', 'good', 'bad', 'digested', 'allopt'])))
         elif r < 0.87:
             ops.append(('MAC', pick(), rng.random() < 0.7, rng.random() < 0.9))
         elif r < 0.93 and len(objs) < 7:
@@ -839,6 +937,7 @@ def all_histories(ctx):
             hs.append((name, list(setup) + list(seq)))
     hs += grid()
     hs += batch_family()
+    hs += wrapped_family()
     hs += algorithm_family(ctx.tier)
     rng = ctx.subrng('histories')
     n = 800 if ctx.tier == 'thorough' else 130
@@ -953,7 +1052,7 @@ def shrink(ctx, ops, sig):
                 group = h[i + 1:i + 1 + o[1]]
                 if not any('P' in [x for x in g[1:] if not isinstance(x, list)] for g in group):
                     out.append(i)           # dissolving a batch: its operations become single requests
-            elif i in inside or o[0] in ('Create', 'CreateKeyPair', 'Register', 'DeriveKey'):
+            elif i in inside or o[0] in ('Create', 'CreateKeyPair', 'Register', 'RegisterWrapped', 'DeriveKey'):
                 continue
             else:
                 out.append(i)
@@ -976,7 +1075,8 @@ def jsonable(res, upto=None):
     steps = res['steps'] if upto is None else res['steps'][:upto + 1]
     return [{'op': list(s['op']), 'status': s['status'], 'reason': s['reason'], 'message': s['message'],
              'classified': list(s['out']), 'crypto_engine_entered': s['called'],
-             'attributes_after': {str(k): v for k, v in s['after'].items()}} for s in steps]
+             'attributes_after': {str(k): v for k, v in s['after'].items()},
+             **({'stored_by_register': s['stored']} if s.get('stored') else {})} for s in steps]
 
 
 # ---------------------------------------------------------------------------------------- the check
@@ -1036,7 +1136,7 @@ def run(ctx):
         for s in res['steps']:
             k = s['op'][0]
             ctx.count('op.%s.%s' % (k, s['out'][1] if s['out'][0] == 'Refused' else s['out'][0]))
-            if s['status'] == 'SUCCESS' and k not in ('Create', 'CreateKeyPair', 'Register'):
+            if s['status'] == 'SUCCESS' and k not in ('Create', 'CreateKeyPair', 'Register', 'RegisterWrapped'):
                 nontrivial = True
             for x, b in s['before'].items():
                 a = s['after'].get(x)
@@ -1046,6 +1146,11 @@ def run(ctx):
                 b = s['before'].get(res['base'] + s['op'][1])
                 if b is not None:
                     ctx.count('use.%s.%s.%s.%s' % (k, b[0], b[1], 'ok' if s['status'] == 'SUCCESS' else 'no'))
+        for s in res['steps']:
+            if s.get('stored') and not (s['stored']['wrapped'] and s['stored']['same_bytes']):
+                # the code as modelled stores a wrapped key as it was sent (Model: Register consults no other object)
+                ctx.disagreement('stored-as-registered', {'history': [list(o) for o in h], 'observed': jsonable(res)},
+                                 model_says='Register stores the key block as sent, with its key wrapping data', impl_says=s['stored'])
         ctx.count('histories.' + name)
         ctx.case_seen(repr(h), nontrivial=nontrivial)
         # direct oracle on every case
